@@ -162,7 +162,7 @@ class WheelBuilder(Builder):
                 paths.add(include.base.resolve().as_posix())
 
         content = ""
-        for path in paths:
+        for path in sorted(paths):
             content += path + os.linesep
 
         pth_file = Path(self._module.name).with_suffix(".pth")
